@@ -243,6 +243,50 @@ def run(ctx):
                                 ctx.count("steps_raised")
                             mon.step_info = None
                         ctx.count("directed_zero_dim_programs")
+            # directed: the smallest program of each class the random programs reach only now and then (so that what a
+            # quick run reports about them does not depend on the draw)
+            def d_rms_norm(pool):
+                a = pool.weight((8, 16), "qint4", 0, None)
+                return F.rms_norm(a, (16,))
+
+            def d_slice_assign(pool):
+                d, _ = pool.fresh((4, 8), "act8")
+                q, _ = pool.fresh((4, 8), "act8")
+                d[1] = q[1]
+                return d
+
+            def d_copy_pt_pa(pool):
+                d, _ = pool.fresh((4, 8), "act8")
+                w, _ = pool.fresh((4, 8), "w8a0")
+                return d.copy_(w)
+
+            def d_copy_pa_pt(pool):
+                d, _ = pool.fresh((4, 8), "act8")
+                w, _ = pool.fresh((4, 8), "w8a0")
+                return w.copy_(d)
+
+            def d_linear_keywords(pool):
+                a, _ = pool.fresh((3, 8), "act8")
+                w, _ = pool.fresh((5, 8), "w8a0")
+                return F.linear(input=a, weight=w, bias=None)
+
+            for dname, prog in (("rms_norm_packed_half", d_rms_norm), ("slice_assign", d_slice_assign), ("copy_pt_pa", d_copy_pt_pa),
+                                ("copy_pa_pt", d_copy_pa_pt), ("linear_keywords", d_linear_keywords)):
+                for wd in (torch.float16, torch.float32):
+                    k += 1
+                    if not ctx.mine(k):
+                        continue
+                    if not ctx.case(dict(directed="minimal_" + dname, dtype=str(wd))):
+                        continue
+                    pool = programs.Pool(oq, ctx.crng, wd)
+                    with torch.no_grad():
+                        mon.step_info = dict(template="minimal_" + dname, dtype=str(wd))
+                        try:
+                            prog(pool)
+                        except Exception:
+                            ctx.count("steps_raised")
+                        mon.step_info = None
+                    ctx.count("directed_minimal_programs")
             for i in range(n_prog):
                 wd = DT[int(rng.integers(3))]
                 depth = int(rng.integers(1, 9))
